@@ -166,7 +166,7 @@ static bool runScenario(uint64_t seed, uint64_t idx)
   int pattern = int(rng.below(4)); // 0 tight burst (one submission per submitter) 1 streams 2 streams+stop race 3 idle-exit race
   int nSub = int(rng.range(1, VF_TSAN ? 8 : 16));
   int perSub = pattern == 0 ? 1 : int(rng.range(3, 60));
-  if (pattern == 3) { nSub = int(rng.range(1, 4)); perSub = int(rng.range(10, 40)); }
+  if (pattern == 3) { nSub = int(rng.range(1, 4)); perSub = int(rng.range(10, 40)); idleMs = idles[rng.below(3)]; }
   if (pattern == 0 && rng.chance(0.5)) idleMs = 500; // keep an overshoot visible to the sampler
   int shutdownKind = int(rng.below(4)); // 0 destructor 1 stop() 2 drain()+stop() 3 stop() racing submitters (pattern 2 forces 3)
   if (pattern == 2) shutdownKind = rng.chance(0.5) ? 3 : 4; // 4: direct shutdown() racing submitters
@@ -220,7 +220,10 @@ static bool runScenario(uint64_t seed, uint64_t idx)
         else { uint64_t x = r.below(20); kind = x < 9 ? QUICK : x < 13 ? SLEEP : x < 16 ? THROW : x < 19 ? NEST : (useLatch ? LATCH : QUICK); }
         // racing stop(): hold some submitters between "spawn decided" and "worker created"
         tlsCreateDelayUs = (pattern == 2 && r.chance(0.25)) ? uint32_t(r.range(5000, 90000)) : 0;
-        tlsPreLockDelayUs = (pattern == 2 && r.chance(0.5)) ? uint32_t(r.range(20, 600)) : 0;
+        tlsPreLockDelayUs = (pattern == 2 && r.chance(0.5)) ? uint32_t(r.range(20, 600))
+                            // idle-exit race: hold the submitter (e.g. between creating a worker and registering it)
+                            // for longer than the idle timeout
+                            : (pattern == 3 && r.chance(0.5)) ? uint32_t(r.range(300, uint64_t(idleMs) * 2500)) : 0;
         submit(S, id, api, kind, r.next());
         tlsCreateDelayUs = 0; tlsPreLockDelayUs = 0;
         if (pattern == 3) vf::sleepMs(double(idleMs) * (0.5 + 0.1 * double(r.below(10))));
